@@ -29,8 +29,18 @@ decided far above the rounding level).  The DEFECT stream (12 %) constructs, und
 three recorded defect classes (batch-member-breakdown, eigenvector-start-undetected, tol-below-rounding);
 the evidence reports per label how many inputs reproduced the defect, and the three witness inputs of
 /verif/known_findings.json are replayed literally on every run.  For single start vectors the model's
-`lanczosEigs` is executed by the driver (with a Jacobi `eigh`, whose contract residual is measured) and
-compared with the real `lanczos_eigs`.
+`lanczosEigs` is executed by the driver (with a Jacobi `eigh`, whose contract defects — residual AND orthonormality
+of its columns, the premises of C14_lanczos_eigs_unit — are measured and must be <= 1e-10) and compared with the
+real `lanczos_eigs`; the model's Ritz vectors must be orthonormal up to the measured defects of the two premises
+(the isometry <Q y_a, Q y_b> = <y_a, y_b> of C14_lanczos_eigs_unit), and the oracle demands non-zero, orthonormal
+Ritz vectors of the real `lanczos_eigs`.
+
+Excuses (round 3).  A spec failure is excused by a recorded clause (read from /verif/known_findings.json through
+common.known_clauses only) per batch member and only under the decidable predicates listed in `attribute`: the failure
+class is one that a run past a breakdown explains (never a structural one), the member's Krylov space is exhausted at
+step bd in the model's run with bd equal to the grade of the start vector whenever the grade is decidable on the input,
+the real run went beyond bd, the first bd columns satisfy every statement, and the clause name is decided by the code's
+own exit test on the returned sub-diagonal.  An exception of the real code is always a spec failure (never excused).
 """
 import json
 import os
@@ -48,34 +58,18 @@ import common
 MODULE = "ColaVerif.Properties.C14"
 DRIVER = "DriverLanczos.lean"
 
-# Genuine defects found by this check and not (yet) listed in /verif/known_findings.json.
-# PROVISIONAL: proposed entries, see the report; the check treats them like known findings so that it
-# exits 0 on the unchanged tree while printing KNOWN-FINDING lines.
-PROVISIONAL_KNOWN = {
-    "batch-member-breakdown": {
-        "property": "C14", "clause": "batch-member-breakdown",
-        "call_site": "cola/linalg/decompositions/lanczos.py lanczos_fact.cond_fun (xnp.any over the batch) / body_fun (V[..., i] / update)",
-        "what": "batched start vectors: the loop runs while ANY member is above its threshold, so a member whose "
-                "Krylov space is exhausted earlier is normalised by its (zero or rounding-level) residual norm: "
-                "0/0 = NaN columns when the residual is exactly zero, a normalised rounding-noise column otherwise; "
-                "that member's Q is no Krylov basis and its T has spurious Ritz values"},
-    "eigenvector-start-undetected": {
-        "property": "C14", "clause": "eigenvector-start-undetected",
-        "call_site": "cola/linalg/decompositions/lanczos.py lanczos_fact.cond_fun (subdiag[i-1] > tol * subdiag[1])",
-        "what": "the exit test is relative to beta_1 only: when the start vector is (numerically) an eigenvector, beta_1 "
-                "itself is a rounding residue and `beta_1 > tol * beta_1` holds for every tol < 1 (default 1e-7 included), "
-                "so the exhausted Krylov space is not detected; Lanczos continues with the normalised rounding residue up "
-                "to min(max_iters, n) columns: the columns leave K(A, v) (dimension 1), T contains Ritz values that are no "
-                "eigenvalues of A, and on matrices with exact block structure the extra columns are not even orthogonal"},
-    "tol-below-rounding": {
-        "property": "C14", "clause": "tol-below-rounding",
-        "call_site": "cola/linalg/decompositions/lanczos.py lanczos_fact.cond_fun (subdiag[i-1] > tol * subdiag[1])",
-        "what": "tolerances below the rounding level (tol = 0, 1e-14, ...): an exhausted Krylov space leaves a non-zero "
-                "rounding residue beta_j ~ 1e-16 ||A|| > tol * beta_1, the loop does not stop and normalises the residue; "
-                "the following columns are rounding noise (no Krylov basis, spurious Ritz values, not orthogonal on "
-                "matrices with exact block structure). In exact arithmetic (the theorems) the residue is 0 and the loop "
-                "stops for every tol >= 0"},
-}
+# The three defect classes of cola's Lanczos found by this check.  All three are RECORDED for C14 in
+# /verif/known_findings.json and are read ONLY through `common.known_clauses("C14")` (nothing is provisional in
+# this module); the text below is documentation of the clause names that `attribute` emits:
+#   batch-member-breakdown        lanczos_fact.cond_fun (xnp.any over the batch) / body_fun (V[..., i] / update): the loop
+#       runs while ANY member is above its threshold, so a member whose Krylov space is exhausted earlier is normalised
+#       by its (zero or rounding-level) residual norm: 0/0 = NaN columns or a normalised rounding-noise column.
+#   eigenvector-start-undetected  cond_fun (subdiag[i-1] > tol * subdiag[1]): the exit test is relative to beta_1 only;
+#       for a (numerical) eigenvector start beta_1 itself is a rounding residue and `beta_1 > tol * beta_1` holds for
+#       every tol < 1: the exhausted Krylov space (dimension 1) is not detected.
+#   tol-below-rounding            cond_fun: for tol = 0, 1e-14, ... the rounding residue beta_j ~ 1e-16 ||A|| left by an
+#       exhausted Krylov space exceeds tol * beta_1, the loop normalises the residue and goes on (in exact arithmetic
+#       the residue is 0 and the loop stops for every tol >= 0: C14_grade).
 
 THETA = 1e-5     # numerical breakdown: beta_j <= THETA * ||A||
 ETA = 1e-9       # margin (relative to ||A||) for a determined exit decision
@@ -565,7 +559,11 @@ def oracle_eigs(c, A, s, real, k_cap):
     et = np.linalg.eigvalsh((Tr + Tr.T) / 2)
     if np.abs(np.sort(evr) - et).max() > SPEC_TOL * st:
         fails.append(("eigs-values", f"max diff to eigvalsh(T) {np.abs(np.sort(evr) - et).max():.3e}"))
-    # Ritz pairs: A x - theta x = beta_k q_{k+1} (e_k^T y); columns orthonormal
+    # Ritz pairs: A x - theta x = beta_k q_{k+1} (e_k^T y); the returned Ritz vectors are non-zero and orthonormal
+    # (C14_lanczos_eigs_nonzero / C14_lanczos_eigs_unit: Q orthonormal and eigh's columns orthonormal)
+    vn = np.linalg.norm(V, axis=0)
+    if vn.min() < 0.5:
+        fails.append(("ritz-nonzero", f"a returned Ritz vector has norm {vn.min():.3e}"))
     G = V.conj().T @ V
     if np.abs(G - np.eye(k)).max() > SPEC_TOL:
         fails.append(("ritz-orthonormal", f"{np.abs(G - np.eye(k)).max():.3e}"))
@@ -591,7 +589,7 @@ def analyse_model(c, s, M):
     beta = [np.real(mem["sub_full"]) for mem in M["members"]]     # index 0..m
     pb = [None] * B          # step of the numerical breakdown (columns 1..pb determined)
     amp = [1.0] * B
-    info = {"determined_cols": [m] * B, "breakdown": [None] * B, "own_small_at_breakdown": [False] * B}
+    info = {"determined_cols": [m] * B, "breakdown": [None] * B}
     decision_undetermined_at = None
     exit_at = None
     decided = False
@@ -617,8 +615,6 @@ def analyse_model(c, s, M):
             if bj <= THETA * st:
                 pb[b] = j
                 info["breakdown"][b] = j
-                # (an exactly vanishing residual fails the member's own test `0 > tol * beta_1`)
-                info["own_small_at_breakdown"][b] = bool(thr - bj > eta or bj == 0.0)
                 info["determined_cols"][b] = j
             else:
                 amp[b] *= max(1.0, 0.1 * st / bj)
@@ -699,6 +695,17 @@ def compare(c, s, real, M):
         info["eigh_orth"] = float(M["eigh_orth"])
         if not (M["eigh_residual"] <= 1e-10 and M["eigh_orth"] <= 1e-10):
             mism.append(("eigh-contract-premise", f"driver's Jacobi eigh: residual {M['eigh_residual']:.2e} orth {M['eigh_orth']:.2e}"))
+        # C14_lanczos_eigs_unit on the model's run: <Q y_a, Q y_b> = <y_a, y_b>; with the measured defects of the two
+        # premises (orthonormality of the model's Q and of the Jacobi columns) the model's Ritz vectors are orthonormal
+        Qm0, Vm0 = M["members"][0]["Q"], M["eigvecs"]
+        if Vm0.ndim == 2 and Vm0.shape[1] == km and Qm0.ndim == 2 and Qm0.shape[1] == km and km > 0:
+            oq = float(np.abs(Qm0.conj().T @ Qm0 - np.eye(km)).max())
+            ov = float(np.abs(Vm0.conj().T @ Vm0 - np.eye(km)).max())
+            info["model_ritz_orth"] = ov
+            if not ov <= 2 * km * oq + M["eigh_orth"] + 1e-12:
+                mism.append(("model-ritz-orthonormal", f"|V^H V - 1| = {ov:.3e} but |Q^H Q - 1| = {oq:.3e}, eigh columns {M['eigh_orth']:.2e}"))
+            if np.linalg.norm(Vm0, axis=0).min() < 0.5:
+                mism.append(("model-ritz-nonzero", "a Ritz vector of the model is (nearly) zero"))
         evr, evm = np.real(real["eigvals"]), M["eigvals"]
         if evr.shape != evm.shape:
             mism.append(("eigs-count", f"real {evr.shape} model {evm.shape}"))
@@ -731,51 +738,121 @@ def norm2(A):
     return float(np.abs(np.linalg.eigvalsh(A)).max()) if A.size else 0.0
 
 
-def attribute(c, A, s, real, k_cap, breakdown, own_small, spec_fails):
-    """attribute spec failures to modelled defects: a member whose Krylov space is numerically exhausted
-    at step bd (beta_bd <= THETA ||A||) but for which the loop went on; its first bd columns (the
-    determined part) must satisfy every statement.  Returns (clauses, extra failures); no clause =
-    not attributable."""
+# Oracle failure classes that a run past a numerical breakdown EXPLAINS: statements about the content of the columns
+# beyond the breakdown step, of the trailing block of T, and of quantities computed from them (the Ritz pairs of
+# lanczos_eigs mix all columns of Q and all of T).  Every other class is STRUCTURAL (shapes, column count, first column,
+# symmetric tridiagonal form, non-negative norms, real ascending eigh output, info['iterations'], exceptions, malformed
+# outputs): no recorded clause explains it, whatever else happened on the same input.
+EXPLAINED_MEMBER = frozenset({"non-finite", "orthonormal", "T-real", "T=QhAQ", "AQ-QT", "krylov-invariant-subspace",
+                              "stop-at-exhaustion", "krylov-rank", "early-exit-unjustified", "ritz-exact-on-early-exit"})
+EXPLAINED_EIGS = frozenset({"eigs-non-finite", "eigs-values", "ritz-orthonormal", "ritz-nonzero", "ritz-residual"})
+
+
+def attribute(c, A, s, real, k_cap, breakdown, spec_fails, model_beta=None, stats=None):
+    """Attribute spec failures to the recorded defect classes — per batch member, by decidable predicates.
+
+    A member b with failures is excused only if ALL of the following hold (otherwise the whole case is not attributable
+    and is reported as a violation):
+      (1) every failure class of the member is one a run past a breakdown explains (EXPLAINED_MEMBER; for the single
+          start vector of lanczos_eigs also EXPLAINED_EIGS) — structural failures are never excused;
+      (2) the member's Krylov space is exhausted at step bd: beta_bd <= THETA ||A|| in the MODEL's run (`breakdown`; for
+          the sizes beyond the model: on the returned T), and — whenever the grade d of the start vector is decidable on
+          the INPUT (`krylov_dim`: eigen-components of v, unambiguous spectrum) — bd == d, i.e. exact arithmetic stops
+          there (C14_grade); the real run returned MORE than bd columns;
+      (3) the first bd columns (the determined part) satisfy every statement of the oracle, and the eigenvalues of the
+          leading bd x bd block of T are eigenvalues of A up to the residual (C14_lanczos, `eigen`): the failures are
+          located in the columns beyond bd.
+    The clause is then decided by the code's own exit test after step bd, `subdiag[bd] > tol * subdiag[1]`, evaluated on
+    the sub-diagonal the code RETURNED (an exactly vanishing residual, whose row of the dense T is NaN, counts as 0):
+      test true, bd == 1  -> eigenvector-start-undetected   (beta_1 > tol * beta_1 although v is numerically an eigenvector)
+      test true, bd >= 2  -> tol-below-rounding             (the rounding residue exceeds tol * beta_1)
+      test false          -> batch-member-breakdown, only if another member's test is true after step bd (the `any` kept the
+                             loop running); with no such member the continuation is unexplained: not attributable.
+    Returns (clauses, extra failures); no clause = not attributable."""
     clauses, extra = set(), []
     if "exc" in real or not real.get("Q") or real["Q"][0].ndim != 2:
         return set(), extra
+    st = s if s > 0 else 1.0
     B = len(c["starts"])
+    tol = c["tol"]
     kr = real["Q"][0].shape[1]
+
+    def beta_returned(b, j):
+        T = real["T"][b]
+        if T.ndim != 2 or not (1 <= j < T.shape[0]):
+            return None
+        x = float(np.real(T[j, j - 1]))
+        return x if np.isfinite(x) else None
+
+    def own_test(b, j):
+        """`subdiag[j] > tol * subdiag[1]` of member b on the returned sub-diagonal; None = undecidable"""
+        if b >= len(real["T"]) or b >= len(real["Q"]):
+            return None
+        Q = real["Q"][b]
+        bj, b1 = beta_returned(b, j), beta_returned(b, 1)
+        if bj is None and Q.shape[1] > j and np.all(np.isfinite(Q[:, :j])) and not np.all(np.isfinite(Q[:, j])):
+            # column j+1 = V[j+1] / subdiag[j] is 0/0: subdiag[j] = 0 exactly, and `0 > tol * beta_1` is false
+            return False
+        if bj is None or b1 is None:
+            mb = model_beta[b] if (model_beta is not None and b < len(model_beta)) else None
+            if mb is not None and len(mb) > j and np.isfinite(mb[j]) and np.isfinite(mb[1]):
+                return bool(mb[j] > tol * mb[1])
+            return None
+        return bool(bj > tol * b1)
+
     for b in sorted({b for (b, _, _) in spec_fails}):
+        classes = {f for (bb, f, _) in spec_fails if bb == b}
+        allowed = EXPLAINED_MEMBER | (EXPLAINED_EIGS if (b == 0 and not c["batch"]) else frozenset())
+        if not classes <= allowed:
+            return set(), extra                     # (1) a structural failure is never excused
         bd = breakdown[b] if b < len(breakdown) else None
         if bd is None or kr <= bd:
-            return set(), extra
+            return set(), extra                     # (2) no breakdown in the model's run / the loop did not go on
+        d, _ = krylov_dim(A, c["starts"][b], s)
+        if d is not None and d != bd:
+            return set(), extra                     # (2) exact arithmetic does not stop at bd: nothing recorded explains it
+        if stats is not None:
+            stats["grade_decided_on_input" if d is not None else "grade_undecidable_model_run_only"] = \
+                stats.get("grade_decided_on_input" if d is not None else "grade_undecidable_model_run_only", 0) + 1
         Qp, Tp = real["Q"][b][:, :bd], real["T"][b][:bd, :bd]
         pf, _ = oracle_member(c, A, s, c["starts"][b], Qp, Tp, k_cap, prefix=True)
         if pf:
-            return set(), [(b, "prefix:" + f, d) for f, d in pf]
-        if B > 1 and own_small[b]:
-            # this member was determinately below its threshold: the loop went on because of the others
+            return set(), [(b, "prefix:" + f, dd) for f, dd in pf]
+        # (3) the determined part ends with an exhausted Krylov space: its Ritz values are eigenvalues of A
+        Rp = A @ Qp - Qp @ Tp
+        beta_p = float(np.linalg.norm(Rp[:, bd - 1]))
+        Tpr = np.real(Tp)
+        dist = float(np.abs(np.linalg.eigvalsh((Tpr + Tpr.T) / 2)[:, None] - np.linalg.eigvalsh(A)[None, :]).min(axis=1).max())
+        if dist > beta_p * (1 + 1e-6) + SPEC_TOL * st:
+            return set(), [(b, "prefix:ritz-exact-at-breakdown", f"an eigenvalue of T[:{bd},:{bd}] is {dist:.3e} away from spec(A), "
+                                                                  f"residual {beta_p:.3e}")]
+        ot = own_test(b, bd)
+        if ot is None:
+            return set(), extra
+        if ot:
+            clauses.add("eigenvector-start-undetected" if bd == 1 else "tol-below-rounding")
+        elif B > 1 and any(own_test(b2, bd) for b2 in range(B) if b2 != b):
             clauses.add("batch-member-breakdown")
-        elif bd == 1:
-            clauses.add("eigenvector-start-undetected")
         else:
-            clauses.add("tol-below-rounding")
+            return set(), extra
     return clauses, extra
 
 
 def real_breakdown(c, s, real):
     """breakdown steps read off the REAL output (sizes beyond the model's reach): first j with
-    T[j, j-1] <= THETA ||A||"""
+    T[j, j-1] <= THETA ||A||, or the index of the first 0/0 column"""
     st = s if s > 0 else 1.0
-    bds, small = [], []
+    bds = []
     for Q, T in zip(real["Q"], real["T"]):
         k = T.shape[0]
-        bd, sm = None, False
+        bd = None
         beta = np.real(np.diag(T, -1)) if k > 1 else np.zeros(0)
         bad = np.where(~np.all(np.isfinite(Q), axis=0))[0]
         if bad.size:
             # 0/0 after an exactly vanishing residual: the first NaN column follows the breakdown
             # (NaN rows of the dense T hide beta_bd = 0 itself: 0 * NaN in Tridiagonal.to_dense)
             bd = int(bad[0])
-            if bd >= 1:
-                sm = True      # beta_bd = 0 exactly fails the member's own test `0 > tol * beta_1`
-            else:
+            if bd < 1:
                 bd = None
         else:
             for j in range(1, k):
@@ -784,11 +861,9 @@ def real_breakdown(c, s, real):
                     break
                 if bj <= THETA * st:
                     bd = j
-                    sm = bool(c["tol"] * beta[0] - bj > ETA * st or bj == 0.0)
                     break
         bds.append(bd)
-        small.append(sm)
-    return bds, small
+    return bds
 
 
 def evaluate(c, real, ans):
@@ -834,8 +909,10 @@ def evaluate_(c, real, ans):
     res["stats"] = {"cmp": cinfo, "members": minfo_all, "model_iters": M["iters"],
                     "real_cols": real["Q"][0].shape[1] if real["Q"] and real["Q"][0].ndim == 2 else None}
     if res["spec_fails"]:
-        res["clauses"], extra = attribute(c, A, s, real, k_cap, cinfo["breakdown"], cinfo["own_small_at_breakdown"],
-                                          res["spec_fails"])
+        astats = {}
+        res["clauses"], extra = attribute(c, A, s, real, k_cap, cinfo["breakdown"], res["spec_fails"],
+                                          model_beta=[np.real(mem["sub_full"]) for mem in M["members"]], stats=astats)
+        res["stats"]["attribution"] = astats
         res["spec_fails"] += extra
     if res["spec_fails"]:
         res["status"] = "modelled-defect" if (res["clauses"] and not mism) else "spec-fail"
@@ -907,8 +984,7 @@ def run(ctx):
         gate_err = str(ex)
     t_gate = ctx.wall()
     rng = random.Random(ctx.seed * 104729 + 14)
-    known = dict(common.known_clauses(ctx.prop))
-    provisional = {}   # decided: the three clauses are recorded in /verif/known_findings.json
+    known = dict(common.known_clauses(ctx.prop))   # recorded clauses: ONLY from /verif/known_findings.json
     if ctx.replay:
         rp = json.load(open(ctx.replay))
         cases = [case_from_json(rp["case"])]
@@ -934,7 +1010,7 @@ def run(ctx):
     dist = {"n": {}, "cap_vs_n": {"below": 0, "equal": 0, "above": 0}, "early_termination": 0, "batch_sizes": {},
             "complex": 0, "real": 0, "spectra": {}, "start_kinds": {}, "tol": {}, "undetermined_exit": 0,
             "numerical_breakdown_cases": 0, "eigs_checked": 0, "columns_compared": 0, "rank_tested_columns": 0,
-            "clauses": {}}
+            "clauses": {}, "excused_members": {}}
     streams = {}          # stream -> outcome counts
     produced = {}         # defect label -> how many inputs of its stream reproduced exactly that clause
     witness_seen = {}     # recorded clause -> did its literal witness reproduce it
@@ -982,6 +1058,8 @@ def run(ctx):
             dist["max_deviation_eigvals_rel"] = max(dist.get("max_deviation_eigvals_rel", 0.0), cm.get("maxdiff_eigs", 0.0))
             dist["max_deviation_eigvecs"] = max(dist.get("max_deviation_eigvecs", 0.0), cm.get("maxdev_eigvecs", 0.0))
             dist["max_eigh_contract_residual"] = max(dist.get("max_eigh_contract_residual", 0.0), cm.get("eigh_residual", 0.0))
+            dist["max_eigh_contract_orth"] = max(dist.get("max_eigh_contract_orth", 0.0), cm.get("eigh_orth", 0.0))
+            dist["max_model_ritz_orth"] = max(dist.get("max_model_ritz_orth", 0.0), cm.get("model_ritz_orth", 0.0))
         dist["columns_compared"] += max(0, cm.get("compared_cols") or 0) * len(c["starts"])
         dist["max_deviation_Q"] = max(dist.get("max_deviation_Q", 0.0), cm.get("maxdiff_Q", 0.0))
         dist["max_deviation_T_rel"] = max(dist.get("max_deviation_T_rel", 0.0), cm.get("maxdiff_T", 0.0))
@@ -998,19 +1076,20 @@ def run(ctx):
                             "model_columns": st.get("model_iters"), "status": res["status"]})
         # verdict
         if res["status"] == "modelled-defect":
+            for kk, vv in (st.get("attribution") or {}).items():
+                dist["excused_members"][kk] = dist["excused_members"].get(kk, 0) + vv
             for cl in sorted(res["clauses"]):
                 dist["clauses"][cl] = dist["clauses"].get(cl, 0) + 1
             for cl in sorted(res["clauses"]):
-                entry = known.get(cl) or provisional.get(cl)
-                if entry is None:
+                entry = known.get(cl)
+                if entry is None:      # a clause that is not recorded excuses nothing
                     if len(ctx.violations) < MAX_VIOLATION_LINES:
                         common.violation(ctx, payload(c, res, real))
                     else:
                         suppressed += 1
                     break
-                tag = "" if cl in known else " [PROVISIONAL, not yet in known_findings.json]"
                 b0, f0, d0 = res["spec_fails"][0]
-                common.known_finding(ctx, cl, f"{entry['what']}{tag}; first witness of this run: case {c['id']} "
+                common.known_finding(ctx, cl, f"{entry['what']}; first witness of this run: case {c['id']} "
                                      f"(n={c['n']}, max_iters={c['max_iters']}, tol={c['tol']}, batch={len(c['starts']) if c['batch'] else 0}, "
                                      f"starts={c.get('start_kinds')}): member {b0}: {f0}: {d0}")
                 if not any(w.get("clause") == cl for w in ctx.notes):
@@ -1044,8 +1123,8 @@ def run(ctx):
                     f, _ = oracle_member(c, A, s, v, real["Q"][b], real["T"][b], k_cap)
                     fails += [(b, x, d) for x, d in f]
                 if fails:
-                    bds, small = real_breakdown(c, s, real)
-                    clauses, extra = attribute(c, A, s, real, k_cap, bds, small, fails)
+                    bds = real_breakdown(c, s, real)
+                    clauses, extra = attribute(c, A, s, real, k_cap, bds, fails)
                     fails += extra
         except Exception as ex:  # noqa: BLE001
             fails.append((0, "malformed-output", f"{type(ex).__name__}: {ex}"))
@@ -1060,7 +1139,7 @@ def run(ctx):
             res = {"status": "modelled-defect" if clauses else "spec-fail", "spec_fails": fails, "mismatch": [],
                    "clauses": clauses}
             outcomes[res["status"]] += 1
-            unknown = [cl for cl in sorted(clauses) if cl not in known and cl not in provisional]
+            unknown = [cl for cl in sorted(clauses) if cl not in known]
             if not clauses or unknown:
                 if len(ctx.violations) < MAX_VIOLATION_LINES:
                     common.violation(ctx, payload(c, res, real))
@@ -1069,9 +1148,7 @@ def run(ctx):
             else:
                 for cl in sorted(clauses):
                     dist["clauses"][cl] = dist["clauses"].get(cl, 0) + 1
-                    entry = known.get(cl) or provisional.get(cl)
-                    tag = "" if cl in known else " [PROVISIONAL, not yet in known_findings.json]"
-                    common.known_finding(ctx, cl, f"{entry['what']}{tag}")
+                    common.known_finding(ctx, cl, f"{known[cl]['what']}")
         else:
             outcomes["ok"] += 1
     t_real = time.time() - t0
@@ -1120,18 +1197,26 @@ def run(ctx):
         "samples": samples,
         "known_findings_seen": [list(k) for k in ctx.known],
         "violations_not_written": suppressed,
-        "provisional_known": sorted(provisional),
+        "recorded_clauses": sorted(known),
         "finding_replays": ctx.notes,
         "timing_s": {"lean_gate": round(t_gate, 1), "model": round(t_model, 1), "real_and_oracle": round(t_real, 1)},
         "trusted_base_extra": [
             "Model/Lanczos.lean is generic over the law-free classes Lanczos.Num / Lanczos.VecOps; the theorems are about its "
             "instance at exact arithmetic (RCLike field, inner product space), the correspondence runs its Float instance",
-            "numpy.linalg.eigh / LAPACK inside lanczos_eigs is a parameter of the model (contract `eigh_contract` as hypothesis; witnessed by "
-            "C14_eigh_contract_witness); the driver instantiates it with cyclic Jacobi rotations and reports the measured contract residual"],
+            "numpy.linalg.eigh / LAPACK inside lanczos_eigs is a parameter of the model. ASSUMED contracts (hypotheses, not proved for "
+            "LAPACK): `eigh_contract` (C14_lanczos_eigs: k values, T y_j = theta_j y_j — zero columns pass), `eigh_contract_nonzero` "
+            "(C14_lanczos_eigs_nonzero: no zero column => non-zero Ritz vectors) and `eigh_contract_unit` (C14_lanczos_eigs_unit: orthonormal "
+            "columns => orthonormal Ritz vectors, real Ritz values = Rayleigh quotients); witnessed exactly on a 2 x 2 run "
+            "(C14_eigh_contract_witness) and, for the whole strengthened bundle, on a 3 x 3 run (C14_eigh_contract_unit_witness). The driver "
+            "instantiates eigh with cyclic Jacobi rotations and reports the measured residual and orthonormality defect of its columns "
+            "(both required <= 1e-10); the real lanczos_eigs output is checked for non-zero orthonormal Ritz vectors by the oracle"],
     }
     common.write_evidence(ctx, gate, cov, assumptions=[
         "start vector non-zero, tol >= 0, max_iters >= 1, A Hermitian (the routine is not defined otherwise)",
         "exact arithmetic in the theorems; floating-point behaviour enters through the correspondence (tolerance rule) and the spec oracle",
+        "numpy.linalg.eigh (LAPACK) returns k eigenpairs of T with orthonormal eigenvector columns: ASSUMED contract `eigh_contract_unit` of "
+        "C14_lanczos_eigs_unit (weaker: `eigh_contract_nonzero`, `eigh_contract`), witnessed exactly on the 2 x 2 and the 3 x 3 run "
+        "(C14_eigh_contract_witness, C14_eigh_contract_unit_witness); measured on every compared run for the driver's Jacobi eigh",
         "sizes above 40 (thorough: up to 300) are checked against the spec oracle only, not against the interpreted Lean model"])
     print(json.dumps({"outcomes": outcomes, "distinct_nontrivial": nontrivial, "gate": (gate or {}).get("obligations"),
                       "timing": cov["timing_s"]}))
